@@ -3,6 +3,9 @@ package props
 
 import (
 	"encoding/json"
+	"os/exec"
+	"path/filepath"
+	"strings"
 
 	"fmt"
 	"github.com/mlange-42/arche/ecs"
@@ -51,6 +54,23 @@ func Replay(path string) int {
 	if err := json.Unmarshal(b, &rf); err != nil {
 		fmt.Fprintln(os.Stderr, err)
 		return 2
+	}
+	// counterexamples found in the `tiny` build are replayed by the tiny binary
+	tiny := strings.Contains(rf.Scenario, "tiny")
+	if b, ok := rf.Extra["build"].(string); ok && b == "tiny" {
+		tiny = true
+	}
+	if tiny && !IsTiny() {
+		exe := filepath.Join(runner.Root, "bin", "check_tiny")
+		cmd := exec.Command(exe, "replay", path)
+		cmd.Stdout, cmd.Stderr = os.Stdout, os.Stderr
+		if err := cmd.Run(); err != nil {
+			if ee, ok := err.(*exec.ExitError); ok {
+				return ee.ExitCode()
+			}
+			return 2
+		}
+		return 0
 	}
 	if h, ok := replayers[rf.Kind]; ok && rf.Kind != "wx" {
 		return h(&rf)
